@@ -52,6 +52,8 @@ def parts(tier):
                                                                   "symbolic_leaves": False}, shards=16, timeout=700, path_timeout=30, mode="CH-E"),
         CH("grammar_depth1_pairs", "vflib.props.c02:scen_tight", {"kinds": "GRAMMAR1", "samples": 2, "keys": ["a"], "symbolic_leaves": False},
            shards=16, timeout=700, path_timeout=30, mode="CH-E"),
+        CH("grammar_depth2_pairs", "vflib.props.c02:scen_tight", {"kinds": "GRAMMAR2", "samples": 2, "keys": ["a"], "symbolic_leaves": False},
+           shards=16, timeout=900, path_timeout=30, mode="CH-E"),
         CH("literals", "vflib.props.c02:scen_tight", {"kinds": "KINDS_LIT", "samples": 3, "keys": ["a"], "symbolic_leaves": False},
            shards=14, timeout=700, path_timeout=30, mode="CH-E"),
         CH("literals_merged_models", "vflib.props.c02:scen_tight",
